@@ -270,11 +270,22 @@ def coq_term(case, run):
     return f'check_pred {t} {slots} {e} {lit}'
 
 
+def corpus_cases():
+    """Minimised failures of earlier runs (corpus/C06/*.json), run first."""
+    d = os.path.join(core.VERIF, 'corpus', 'C06')
+    out = []
+    for fn in sorted(os.listdir(d)) if os.path.isdir(d) else []:
+        if fn.endswith('.json'):
+            with open(os.path.join(d, fn)) as f:
+                out.append(case_from_json(json.load(f)))
+    return out
+
+
 def build_cases(ctx):
     rng = ctx.rng
     thorough = ctx.thorough
     maxw = 5 if thorough else 4
-    cases = list(fol_gen.sweep_cases(rng, maxw))
+    cases = corpus_cases() + list(fol_gen.sweep_cases(rng, maxw))
     n_rand = 12000 if thorough else 700
     n_rej = 1500 if thorough else 160
     max_bits = 11 if thorough else 9
@@ -309,7 +320,7 @@ def correspond(ctx):
     nontrivial = 0
     for i, (case, run) in enumerate(zip(cases, runs)):
         cls = case['cls'].split(':')[0] if case['cls'].startswith(
-            ('random', 'boundary')) else case['cls']
+            ('random', 'boundary', 'corpus')) else case['cls']
         c = stats['by_class'].setdefault(cls, dict(n=0, rejected=0))
         c['n'] += 1
         fol_ast.operators(case['tree'], ops_seen)
@@ -484,12 +495,15 @@ def rejected_but_meaningful(case, run):
     whose operators are all documented: a failing input unless a width
     limit or a documented scope restriction explains the rejection."""
     from oracles import fol_eval
-    if not case['cls'].startswith(('sweep', 'random', 'probe')):
+    if not case['cls'].startswith(('sweep', 'random', 'probe', 'corpus')):
         return None
     try:
-        oracle_rows(case, run['slots'])
+        _, vals = oracle_rows(case, run['slots'])
     except fol_eval.IllTyped:
         return None
+    if case['kind'] == 'pred' and any(
+            v is not None and not isinstance(v, bool) for v in vals):
+        return None      # not a predicate
     err = ' '.join(run['errors'].values())
     return Failing(
         f'translator rejects the documented formula '
@@ -499,7 +513,27 @@ def rejected_but_meaningful(case, run):
 
 
 def shrink(f, case):
-    """Greedy: replace the formula by a failing immediate sub-formula."""
+    """Greedy: the smallest sub-formula (same declarations) that still fails
+    in the same way (wrong value / rejected)."""
+    from oracles import fol_eval
+    if case['kind'] != 'pred' or case.get('defs'):
+        return f
+    subs = sorted({s for _, s in fol_gen._subterms(case['tree'])
+                   if s != case['tree']}, key=fol_ast.size)
+    rejected = f.got is not None and str(f.got).startswith('exception')
+    for sub in subs[:60]:
+        c2 = dict(case, tree=sub, cls=case.get('cls'))
+        try:
+            run = run_case(c2)
+            if run['impl'] in (None, 'depends') or run['backend_diff']:
+                g = rejected_but_meaningful(c2, run) \
+                    if rejected and run['impl'] is None else None
+            else:
+                g = None if rejected else oracle_compare(c2, run)
+        except Exception:   # noqa: candidate not a predicate
+            g = None
+        if g and 'ill-typed' not in g.what:
+            return g
     return f
 
 
